@@ -84,7 +84,7 @@ def run(ctx):
     ctx.validate("MemCacheTrace", kt, lambda ev, inv: "%s:memcache" % inv, only=["Inv_C20_", "Unconsumable"], require_events=500)
     # transports: cancellations and connection failures (C06 / C05 style runs) with the pool hook active
     xdrv = vf.build_driver("xportdrv", race=race)
-    for mode, n in (("reuse", 1500), ("pipe", 1500), ("dohcancel", 1200)) + ((("fault", 0), ("life", 0)) if race else ()):
+    for mode, n in (("reuse", 1500), ("pipe", 1500), ("dohcancel", 1200), ("fallback", 400)) + ((("fault", 0), ("life", 0)) if race else ()):
         t = ctx.path("x-%s.ndjson" % mode)
         o = ctx.driver(xdrv, ["-mode", mode, "-n", n, "-out", t, "-own", ctx.path("own-%s.ndjson" % mode)], timeout=1800,
                        ok_codes=(0, 66), env={"GORACE": "halt_on_error=0 exitcode=0"})
